@@ -1930,6 +1930,11 @@ where
                 }
             }
 
+            // Hex digits only: from_str_radix would also accept a leading sign.
+            if !s.bytes().all(|b| b.is_ascii_hexdigit()) {
+                self.input = orig_input;
+                return None;
+            }
             match u32::from_str_radix(&s, 16) {
                 Ok(u) => {
                     if u > 0x10_FFFF {
@@ -1956,6 +1961,10 @@ where
                     return None;
                 }
             }
+            if !s.bytes().all(|b| b.is_ascii_hexdigit()) {
+                self.input = orig_input;
+                return None;
+            }
             match u16::from_str_radix(&s, 16) {
                 Ok(u) => {
                     if (0xD800..=0xDBFF).contains(&u) {
@@ -1977,6 +1986,9 @@ where
                             for _ in 0..4 {
                                 let c = self.next().and_then(char::from_u32)?;
                                 s.push(c);
+                            }
+                            if !s.bytes().all(|b| b.is_ascii_hexdigit()) {
+                                return None;
                             }
 
                             let uu = u16::from_str_radix(&s, 16).ok()?;
